@@ -521,7 +521,8 @@ def _write_evidence(mod, pid, tier, seed, total, wall, nviol, known, error=None)
         "wall_s": round(wall, 2),
         "violations": nviol,
     }
-    d = os.path.join(env.VERIF, "evidence")
+    # evidence/ describes runs against /repo; runs against another tree (VERIF_REPO, sensitivity runs) write elsewhere
+    d = os.environ.get("VERIF_EVIDENCE_DIR") or (os.path.join(env.VERIF, "evidence") if env.REPO == "/repo" else os.path.join(env.scratch_root(), "evidence"))
     os.makedirs(d, exist_ok=True)
     tmp = os.path.join(d, f".{pid}.json.tmp")
     with open(tmp, "w") as f:
